@@ -7,7 +7,7 @@ use marrow::{
 };
 
 use crate::internal::{
-    error::{set_default, try_, Context, ContextSupport, Error, Result},
+    error::{fail, set_default, try_, Context, ContextSupport, Error, Result},
     utils::{
         array_ext::{ArrayExt, ScalarArrayExt},
         NamedType,
@@ -113,6 +113,11 @@ where
 
             use chrono::naive::NaiveTime;
             let time = v.parse::<NaiveTime>()?;
+            // NOTE: chrono represents a leap second (`23:59:60`) by `nanosecond() >= 1_000_000_000`,
+            // the resulting value would not be a valid Arrow time (e.g., 86400 for seconds)
+            if time.nanosecond() >= 1_000_000_000 {
+                fail!("Cannot represent the leap second {v} as a time since midnight");
+            }
             let timestamp = i64::from(time.num_seconds_from_midnight()) * seconds_factor
                 + i64::from(time.nanosecond()) / nanoseconds_factor;
 
